@@ -9,7 +9,6 @@ import (
 	"strings"
 	"time"
 
-
 	"verifsa/core"
 	"verifsa/eng"
 )
